@@ -30,7 +30,8 @@ Inductive instr :=
 | IJumpForward (skip : nat)
 | IDupTop | IRotTwo | IRotThree | IPopTop
 | IDupTopTwo
-| ILoadName (n : nat) | IStoreName (n : nat) | IStoreSubscr | IStoreAttr (n : nat).
+| ILoadName (n : nat) | IStoreName (n : nat) | IStoreSubscr | IStoreAttr (n : nat)
+| IConst (k : Z).                (* LOAD_CONST of a value that is not a logged leaf (a keyword name): no event *)
 
 Section Sem.
   Variable leafval : nat -> Z.
@@ -140,6 +141,7 @@ Section Sem.
         | IStoreName n => match stk with v :: s => exec f rest s (log ++ [EStoreName n v]) | [] => None end
         | IStoreSubscr => match stk with i :: a :: v :: s => exec f rest s (log ++ [EStoreSub a i v]) | _ => None end
         | IStoreAttr n => match stk with a :: v :: s => exec f rest s (log ++ [EStoreAttr n a v]) | _ => None end
+        | IConst k => exec f rest (k :: stk) log
         end
       end
     end.
@@ -192,4 +194,23 @@ Section Sem.
     | AugSub a i op v => compile a ++ compile i ++ [IDupTopTwo; IPrim 25 2] ++ compile v ++ [IPrim op 2; IRotThree; IStoreSubscr]
     | AugAttr a n op v => compile a ++ [IDupTop; IPrim n 1] ++ compile v ++ [IPrim op 2; IRotTwo; IStoreAttr n]
     end.
+  (* ---- n-ary forms: a call with any number of positional and keyword arguments, a tuple/list/set display of
+     any length, a dict display, a slice object ...: one primitive applied to operands given in the order the
+     compiler EMITS them (for a 3.4 dict display: value before key, pair by pair).  An operand is a
+     sub-expression or a constant the compiler loads itself (a keyword name): no event *)
+  Inductive operand := OExpr (e : expr) | OConst (k : Z).
+  Definition eval_operand (o : operand) : Z * list event :=
+    match o with OExpr e => eval e | OConst k => (k, []) end.
+  Fixpoint eval_operands (os : list operand) : list Z * list event :=
+    match os with
+    | [] => ([], [])
+    | o :: r => let '(v, e) := eval_operand o in let '(vs, es) := eval_operands r in (v :: vs, e ++ es)
+    end.
+  Definition eval_nary (tag : nat) (os : list operand) : Z * list event :=
+    let '(vs, es) := eval_operands os in (prim tag vs, es ++ [EPrim tag vs]).
+  Definition compile_operand (o : operand) : list instr :=
+    match o with OExpr e => compile e | OConst k => [IConst k] end.
+  Definition compile_nary (tag : nat) (os : list operand) : list instr :=
+    flat_map compile_operand os ++ [IPrim tag (length os)].
+
 End Sem.
